@@ -10,9 +10,9 @@ Proof stage (coq/Props/C09.v), then for every generated case {prog, style}:
       (3) invariance under a random legal interchange and under normal_form();
       (4) eval() against the identity-on-arrays functor (tensor diagrams);
   * numpy.tensordot with axes lists (the one primitive added to the numpy model).
-Known finding F5 (winding number ignored without reversing) is recognised as
-DESIGN 5.3 says: oracle fails AND implementation == bug-compatible model AND
-the trigger predicate holds."""
+Finding F5 (winding number ignored without reversing) was fixed upstream by
+/repo commit 413701f; its former minimal input is the first corpus case, as an
+ordinary regression case: any oracle failure is a VIOLATION."""
 import itertools
 import os
 import random
@@ -28,11 +28,6 @@ MAX_RECORDED = 15
 KBOX, KSWAP, KCUP, KCAP = 0, 1, 2, 3
 DLIT, DSPIDER, DTERM = 0, 1, 2
 TDIAG, TBOX, TBUBBLE, TSUM = 0, 1, 2, 3
-F5_WHAT = ("tensor.Functor ignores the winding number without reversing the image: an adjoint "
-           "(Cup / Cap / x.l / x.r) of an object mapped to a non-palindromic Dim of length >= 2 "
-           "gets the un-reversed Dim (AxiomError for cups and caps), e.g. "
-           "Functor({y: Dim(3, 2)}, {})(Cap(y, y.l))")
-
 
 def prod(l):
     r = 1
@@ -208,38 +203,6 @@ def canon_sem(ti, res):
     return [d, c, [shape, [ti.canon_entry(x) for x in a.flatten().tolist()]]]
 
 
-# ====================================================================== F5 trigger
-def all_objects(prog):
-    mode, obs, env, terms, main = prog
-    for t in terms:
-        if t[0] == TDIAG:
-            for ty in [t[1], t[2]] + [x for b in t[3] for x in (b[2], b[3])]:
-                for ob in ty:
-                    yield ob
-        elif t[0] == TBOX:
-            for ob in t[1][2] + t[1][3]:
-                yield ob
-        elif t[0] == TSUM:
-            for ob in t[2] + t[3]:
-                yield ob
-
-
-def f5_trigger(prog):
-    """An adjoint (odd winding number: x.l, x.r, the second leg of every Cup / Cap) of
-    an object whose image has length >= 2 and is not a palindrome."""
-    if prog[0] == 1:
-        return False
-    table = {}
-    for name, img in prog[1]:
-        table.setdefault(name, img)
-    for name, z in all_objects(prog):
-        if z % 2 and name in table:
-            d = norm(table[name])
-            if len(d) >= 2 and d != d[::-1]:
-                return True
-    return False
-
-
 # ====================================================================== generation
 IMAGES = [[], [1], [2], [2], [3], [3], [2], [4], [2, 2], [3, 3], [2, 3], [3, 2], [2, 3, 2], [2, 1, 3]]
 
@@ -269,7 +232,8 @@ class Gen:
         self.peak = 1
 
     def img(self, ob):
-        return norm(self.table[ob[0]])
+        d = norm(self.table[ob[0]])
+        return d[::-1] if ob[1] % 2 else d
 
     def F(self, t):
         return [x for ob in t for x in self.img(ob)]
@@ -315,6 +279,11 @@ class Gen:
             bdom = scan[off:off + k]
             r = rng.random()
             b = None
+            pairs = [i for i in range(len(scan) - 1) if self.is_adjoint(scan[i:i + 2])]
+            if pairs and rng.random() < 0.3:         # close an adjoint pair with a Cup
+                off, k = rng.choice(pairs), 2
+                bdom = scan[off:off + 2]
+                r = 0.2
             if r < 0.13 and self.rigid and self.mode == 0 or (r < 0.08 and self.mode == 1):
                 x = self.ob()
                 y = [x[0], x[1] + 1] if self.mode == 0 else x
@@ -340,6 +309,8 @@ class Gen:
             offs.append(off)
             scan = scan[:off] + b[3] + scan[off + len(b[2]):]
             self.peak = max(self.peak, d0 * prod(self.F(scan)))
+            if b[0] in (KCUP, KCAP):     # Tensor.cups starts from id(left @ right)
+                self.peak = max(self.peak, prod(self.F(b[2] + b[3])) ** 2)
         return dom, scan, boxes, offs
 
     def is_adjoint(self, pair):
@@ -441,8 +412,10 @@ class Gen:
             self.terms.append([TBUBBLE, rng.choice([0, 1, 2]), main])
             main = len(self.terms) - 1
         elif r < 0.3 and boxes:                      # a single box
-            self.terms.append([TBOX, rng.choice(boxes)])
-            main = len(self.terms) - 1
+            b = rng.choice(boxes)
+            if mode == 0 or b[0] in (KBOX, KSWAP):   # rigid.Cup / Cap have no eval()
+                self.terms.append([TBOX, b])
+                main = len(self.terms) - 1
         return self.finish(main)
 
     def malformed(self):
@@ -468,15 +441,16 @@ class Gen:
                 return "obkey", case
             if kind == "zero" and mode == 0 and obs:
                 i = rng.randrange(len(obs))
-                obs[i][1] = [rng.choice([0, -1, 0, 2, 0])] if rng.random() < 0.7 else obs[i][1] + [0]
-                case["style"]["int_obs"] = [obs[i][0]] if len(obs[i][1]) == 1 else []
+                obs[i][1] = [rng.choice([0, -1, 0, 2, 0])]     # an int (a Dim cannot hold it)
+                case["style"]["int_obs"] = [obs[i][0]]
                 return "zero", case
         return "none", case
 
 
 # ---------------------------------------------------------------------- corpus
 def corpus():
-    """hand-written edge cases; the first one is the minimal input of F5"""
+    """hand-written edge cases; the first ones are the former minimal inputs of F5
+    (fixed by /repo commit 413701f), now ordinary regression cases"""
     x, y, xl, xr, yl = [1, 0], [2, 0], [1, -1], [1, 1], [2, -1]
     d = lambda n, k=1: [[(i * k) % 5 - 1, 0] for i in range(n)]   # noqa: E731
     g = lambda n: [[(i % 4) - 1, (i % 3) - 1] for i in range(n)]   # noqa: E731
@@ -487,18 +461,19 @@ def corpus():
     sw = [KSWAP, -1, [x, y], [y, x], 0, []]
     out = []
 
-    def case(obs, env, terms, main=None, mode=0, **style):
+    def case(obs, env, terms, main=None, mode=0, peak=0, **style):
         out.append({"prog": [mode, obs, env, terms, len(terms) - 1 if main is None else main],
-                    "style": style, "peak": 0})
-    # F5: Functor({y: Dim(3, 2)}, {})(Cap(y, y.l))
+                    "style": style, "peak": peak})
+    # formerly F5: Functor({y: Dim(3, 2)}, {})(Cap(y, y.l)) raised AxiomError
     case([[2, [3, 2]]], [], [[TBOX, [KCAP, -3, [], [y, yl], 0, []]]])
     case([[2, [3, 2]]], [], [[TDIAG, [yl, y], [], [[KCUP, -2, [yl, y], [], 0, []]], [0]]])
     case([[1, [2, 3]]], [], [[TDIAG, [xl], [xl], [], []]])
     # palindromic images: cups and caps are fine
     case([[2, [3, 3]]], [], [[TBOX, [KCAP, -3, [], [y, yl], 0, []]]])
-    case([[1, [2]]], [], [[TDIAG, [x], [x], [[KCAP, -3, [], [x, xl], 0, []], [KCUP, -2, [x, xr], [], 0, []]],
+    case([[1, [2]]], [], [[TDIAG, [x], [x], [[KCAP, -3, [], [xr, x], 0, []], [KCUP, -2, [x, xr], [], 0, []]],
                            [1, 0]]], int_obs=[1])
-    case([[1, [2, 3, 2]]], [], [[TDIAG, [x, xr], [], [[KCUP, -2, [x, xr], [], 0, []]], [0]]])
+    case([[1, [2, 3, 2]]], [], [[TDIAG, [x, xr], [], [[KCUP, -2, [x, xr], [], 0, []]], [0]]], peak=20736)
+    case([[1, [2, 2]]], [], [[TDIAG, [x, xr], [], [[KCUP, -2, [x, xr], [], 0, []]], [0]]])
     # boxes, daggers, scalars, empty images, Dim(1)
     for img_x, img_y in ([[2], [3]], [[2, 3], [2]], [[], [3]], [[1], [2, 2]], [[2], []]):
         fx, fy = norm(img_x), norm(img_y)
@@ -512,7 +487,7 @@ def corpus():
         case(obs, env, [[TDIAG, [x, y], [x], [s, h, s], [1, 0, 0]]])
         case(obs, env, [[TDIAG, [x, y], [y, x], [sw], [0]]])
         case(obs, env, [[TBOX, sw]])
-        case(obs, env, [[TDIAG, [x, x, y], [y, x], [sw, f, h, f, sw], [1, 0, 1, 0, 0]]], call_ob=True, call_ar=True)
+        case(obs, env, [[TDIAG, [x, x, y], [x, y], [sw, h, f], [1, 0, 1]]], call_ob=True, call_ar=True)
         case(obs, env, [[TDIAG, [], [], [s, s], [0, 0]]])
         case(obs, env, [[TDIAG, [], [], [], []]])
         case(obs, env, [[TDIAG, [x], [y], [f], [0]], [TDIAG, [x], [y], [f], [0]], [TSUM, [0, 1], [x], [y]]])
@@ -533,7 +508,7 @@ def corpus():
     case([], env, [[TDIAG, [], [t2, t2], [v, sp12, sp00, sp1], [0, 0, 1, 2]]], mode=1)
     case([], env, [[TDIAG, [t2], [], [m, v, m, sp20], [0, 1, 1, 0]]], mode=1)
     case([], env, [[TDIAG, [t2, t2], [], [[KCUP, -2, [t2, t2], [], 0, []]], [0]]], mode=1)
-    case([], env, [[TDIAG, [t2], [t3, t3, t2], [[KCAP, -3, [], [t3, t3], 0, []],
+    case([], env, [[TDIAG, [t2], [t3, t2, t3], [[KCAP, -3, [], [t3, t3], 0, []],
                                                [KSWAP, -1, [t2, t3], [t3, t2], 0, []]], [1, 0]]], mode=1)
     bub = [KBOX, 31, [t2], [t3], 0, []]
     envb = env + [[bub, [DTERM, 1]]]
@@ -617,8 +592,7 @@ def run_model_balanced(programs, costs):
 def run(tier, seed):
     import tfun_impl as tf
     import tensor_impl as ti
-    from discopy import monoidal
-    from discopy.rewriting import InterchangerError
+    monoidal, InterchangerError = tf.monoidal, tf.InterchangerError
     rep = Report("C09", tier, seed)
     if os.environ.get("VERIF_C09_SKIP_PROOF", "") == "1":
         proof_ok = True
@@ -630,6 +604,8 @@ def run(tier, seed):
     replay_repo = common.REPO
 
     # ---------------------------------------------------------------- generation
+    # cases whose estimated cost for the unary-nat model exceeds the cap are oracle-only
+    costcap = float(os.environ.get("VERIF_C09_MODEL_COSTCAP", "") or (2e6 if quick else 2e6))
     cases = [("corpus", c) for c in corpus()]
     gen_small = Gen(rng, 400)
     gen_big = Gen(rng, 10000)
@@ -660,7 +636,6 @@ def run(tier, seed):
     nimpl = [tf.numpy_observe(q) for q in nreqs]
 
     # ---------------------------------------------------------------- model
-    costcap = float(os.environ.get("VERIF_C09_MODEL_COSTCAP", "") or (2.5e5 if quick else 1.5e6))
     sendable = [i for i, (_, c) in enumerate(cases) if case_cost(c) <= costcap]
     programs = nreqs + [tf.request(cases[i][1]) for i in sendable]
     costs = [prod(q[1][0]) * prod(q[2][0]) for q in nreqs] + [case_cost(cases[i][1]) for i in sendable]
@@ -745,7 +720,6 @@ def run(tier, seed):
             agree = freeze(out) == freeze(mod)
 
         # ---- oracles (1), (2): what the case should evaluate to
-        trig = f5_trigger(prog)
         failures = []
         if name.startswith("malformed:"):
             expected = None
@@ -766,14 +740,7 @@ def run(tier, seed):
                         "layer-by-layer composite of Tensor.id(F left) @ F(box) @ Tensor.id(F right)"
                         if how == "layers" else "independent numpy.einsum contraction"))
         if failures:
-            if trig and agree:
-                rep.known_finding("F5", F5_WHAT)
-                rep.count("known-finding:F5")
-            elif trig and agree is None:
-                rep.count("F5-trigger-without-model-verdict")
-                record(failures[0] + " (F5 trigger holds but the model gave no verdict)", payload)
-            else:
-                record(failures[0], payload)
+            record(failures[0], payload)
         elif agree is False:
             rep.extra.setdefault("disagreements", []).append(
                 {"family": "corr:tfun", "class": "tensor.Functor", "case": c, "impl": out, "model": mod})
@@ -865,7 +832,7 @@ def run(tier, seed):
         "(optimize='greedy'), numpy.ndindex-built swap / cup / spider arrays",
     ]
     return rep.finish(
-        rule="hand-written corpus (F5 minimal input first; boxes, daggers, scalars, empty / Dim(1) / composite "
+        rule="hand-written corpus (former F5 minimal input first; boxes, daggers, scalars, empty / Dim(1) / composite "
              "images, swaps, cups, caps, spiders, bubbles, sums, single boxes), then %d random cases: rigid "
              "diagrams grown forwards (0..6 boxes: boxes, daggered boxes, swaps, cups, caps, windings -2..2) "
              "under random interpretations (images from %s as ints or Dims, dict or callable), and tensor "
@@ -882,6 +849,5 @@ def run(tier, seed):
             "starts Python's sum() from the int 0; oracle (4) compares the two on non-empty sums)",
             "numpy.tensordot((axes_a, axes_b)) requests with both an out-of-range axis and a shape mismatch "
             "are not generated (numpy checks pair by pair; unreachable from tensor.py)",
-            "F5 cases count as known only when implementation == bug-compatible model and the trigger holds",
         ],
         checker_cmd="make -C coq Props/C09.vo  (coqc 8.16.1, Print Assumptions parsed)")
